@@ -1607,6 +1607,53 @@ fn run(a: &[&str]) -> String {
                 EpochChangeOutcome::Change { next_epoch_effective_start_millis } => format!("some {}", next_epoch_effective_start_millis),
             }
         }
+        "msg_v2" => {
+            // msg_v2 <max plain> <max enc> <max mime> <max decryptors> <kind 0 none|1 plaintext|2 encrypted> <mime len>
+            //        <contents 0 string|1 bytes> <message len> <encrypted len> <n entries> {<key curve> <value curve> <count>}*
+            use radix_common::prelude::*;
+            use radix_transactions::model::*;
+            use radix_transactions::validation::*;
+            let n = |i: usize| -> usize { a[i].parse().unwrap() };
+            let mut config = TransactionValidationConfig::latest();
+            config.message_validation = MessageValidationConfig {
+                max_plaintext_message_length: n(1),
+                max_encrypted_message_length: n(2),
+                max_mime_type_length: n(3),
+                max_decryptors: n(4),
+            };
+            let v = TransactionValidator::new_with_static_config_network_agnostic(config);
+            let curve = |k: usize| if k == 0 { CurveType::Ed25519 } else { CurveType::Secp256k1 };
+            let message = match n(5) {
+                0 => MessageV2::None,
+                1 => MessageV2::Plaintext(PlaintextMessageV1 {
+                    mime_type: "m".repeat(n(6)),
+                    message: if n(7) == 0 { MessageContentsV1::String("x".repeat(n(8))) } else { MessageContentsV1::Bytes(vec![1u8; n(8)]) },
+                }),
+                _ => {
+                    let mut by_curve: IndexMap<CurveType, DecryptorsByCurveV2> = IndexMap::default();
+                    for e in 0..n(10) {
+                        let (kc, vc, cnt) = (n(11 + 3 * e), n(12 + 3 * e), n(13 + 3 * e));
+                        let mut decryptors = IndexMap::default();
+                        for j in 0..cnt {
+                            let mut f = [0u8; 8];
+                            f[0..8].copy_from_slice(&(j as u64).to_be_bytes());
+                            decryptors.insert(PublicKeyFingerprint(f), AesWrapped256BitKey([0u8; AesWrapped256BitKey::LENGTH]));
+                        }
+                        let d = if vc == 0 {
+                            DecryptorsByCurveV2::Ed25519 { dh_ephemeral_public_key: Ed25519PublicKey([0u8; 32]), decryptors }
+                        } else {
+                            DecryptorsByCurveV2::Secp256k1 { dh_ephemeral_public_key: Secp256k1PublicKey([0u8; 33]), decryptors }
+                        };
+                        by_curve.insert(curve(kc), d);
+                    }
+                    MessageV2::Encrypted(EncryptedMessageV2 { encrypted: AesGcmPayload(vec![0u8; n(9)]), decryptors_by_curve: by_curve })
+                }
+            };
+            match v.validate_message_v2(&message) {
+                Ok(()) => "ok 0".to_string(),
+                Err(_) => "err".to_string(),
+            }
+        }
         "auth_run" => auth_run(&a[1..]),
         "nf_vault_lock" => nf_vault_lock(&a[1..]),
         "next_round_run" => next_round_run(&a[1..]),
